@@ -55,7 +55,8 @@ RULE = ('cases (op, data, numSlices, seed, params, draw streams): seeds 0..N and
         '(partition 0 / last / random, after 0 / 1 / middle / last-1 / all elements); takeSample for every n in 0..size+3 '
         'on unevenly filled partitions (filters 4+1+0, sparse, tail only, one element; flatMap expanding one partition; '
         'uneven union), seeds 0..200 and rare seeds (first draw < exp(-10): empty first sample, re-sampling loop) on one- '
-        'and two-element datasets; one seeded sample seen through ten '
+        'and two-element datasets; sampleByKey over composite keys built at run time by a lazy parent (tuples, nested '
+        'tuples, strings, floats; fractions 1 / 0 / missing / other alternating between neighbours); one seeded sample seen through ten '
         'views (collect, count, map, filter, persist twice, glom, mapValues, union, second-level sample); every case once with the streams of the real twister (recorded) and '
         'scripted streams with adversarial draws (0.0, 1-2^-53, the fraction, every boundary and its neighbours); '
         'non-trivial = non-empty data and a result that is neither an error nor empty-by-construction; distinct by '
@@ -107,7 +108,9 @@ class MathTap:
 
 PARENTS = ['list', 'gen', 'range', 'mp_sorted', 'mp_list', 'mp_lambda_list', 'mpi_list', 'glom_flatmap', 'union',
            'coalesce', 'zip', 'cartesian', 'cached', 'map', 'cached_mp_list', 'mp_tuple', 'filter_true', 'flaky',
-           'filter_head', 'filter_sparse', 'flatmap_expand_one', 'union_uneven', 'filter_tail', 'filter_one', 'mpi_uneven', 'mpi_last_only']
+           'filter_head', 'filter_sparse', 'flatmap_expand_one', 'union_uneven', 'filter_tail', 'filter_one', 'mpi_uneven', 'mpi_last_only',
+           'keyed_tuple', 'keyed_str', 'keyed_float', 'keyby_nested', 'keyed_tuple_gen']
+FRESH_KEYS = ['keyed_tuple', 'keyed_str', 'keyed_float', 'keyby_nested', 'keyed_tuple_gen']
 UNEVEN = ['filter_head', 'filter_sparse', 'flatmap_expand_one', 'union_uneven', 'filter_tail', 'filter_one', 'mpi_uneven',
           'mpi_last_only']
 FLAKY = PARENTS.index('flaky')
@@ -179,6 +182,19 @@ def build(sc, data, layout):
             lambda xi: [xi[0]] * 6 if xi[1] == 0 else ([xi[0]] if xi[1] % 5 == 0 else []))
     if name == 'union_uneven':
         return sc.parallelize(data[:1], 1).union(sc.parallelize(data[1:], max(1, nsl)))
+    # composite key objects built on the fly by a lazily evaluated parent: every element carries a fresh,
+    # short-lived key object (equal keys are distinct objects; the ids of dropped ones get reused)
+    if name == 'keyed_tuple':
+        return base.map(lambda x: ((_n(x) % 3, 'k%d' % (_n(x) % 2)), x))
+    if name == 'keyed_str':
+        return base.map(lambda x: ('key-' + str(_n(x) % 4), x))
+    if name == 'keyed_float':
+        return base.map(lambda x: ((_n(x) % 4) * 0.5 + 0.25, x))
+    if name == 'keyby_nested':
+        return base.keyBy(lambda x: (_n(x) % 2, (_n(x) % 3, str(_n(x) % 2))))
+    if name == 'keyed_tuple_gen':
+        return sc.parallelize((x for x in data), nsl).mapPartitions(
+            lambda it: (((_n(x) % 5, _n(x) % 2), x) for x in it))
     if name == 'mpi_uneven':
         # partition i keeps its first max(0, 4 - 3 * i) elements: 4 + 1 + 0 + ...
         return base.mapPartitionsWithIndex(lambda i, it: itertools.islice(it, max(0, 4 - 3 * i)))
@@ -204,6 +220,10 @@ def flaky(P, pos):
             fired[0] = True
             raise RuntimeError('transient fault')
     return f
+
+
+def _n(x):
+    return x if isinstance(x, int) and not isinstance(x, bool) else len(repr(x))
 
 
 def _ident(x):
@@ -450,6 +470,14 @@ def oracle(case, result):
         for x in out:
             if fr.get(x[0], 0.0) == 0:
                 return ('sampleByKey:zero-or-missing-key-present', f'{x!r} with fractions {fr!r}')
+        if not wr:
+            # keys with fraction 1 are kept completely (every draw is below 1), in order, partition by partition
+            for o, p in zip(value, parts):
+                full = [x for x in p if fr.get(x[0], 0.0) == 1]
+                got = [x for x in o if fr.get(x[0], 0.0) == 1]
+                if not _eq(full, got):
+                    return ('sampleByKey:fraction-1-key-incomplete',
+                            f'elements with a fraction-1 key {full!r}, sampled {got!r}; fractions {fr!r}')
         return None
     if op == 2:
         wr, num = params
@@ -725,6 +753,34 @@ def generate(rng, tier):
         for pc in (PARENTS.index('filter_one'), PARENTS.index('filter_head')):
             for num in (1, 2):
                 both(rng, out, 2, list(range(12)), (pc, 3), sd, (True, num), [], 10.0, scr=False)
+    # ---- sampleByKey over composite keys created on the fly (fresh key object per element)
+    for name in FRESH_KEYS:
+        pc = PARENTS.index(name)
+        for rep in range(3 if quick else 12):
+            data = list(range(rng.choice([24, 48, 60])))
+            nsl = rng.choice([1, 2, 3])
+            lay = with_parts(data, (pc, nsl))
+            if lay is None:
+                continue
+            universe = []
+            for part in lay[2]:
+                for x in part:
+                    if x[0] not in universe:
+                        universe.append(x[0])
+            for wr in (False, True):
+                # some keys positive, some 0, some missing; neighbours in the data alternate between them
+                fr = {}
+                for k in universe:
+                    c = rng.choice(['one', 'zero', 'missing', 'half'])
+                    if c != 'missing':
+                        fr[k] = {'one': 1.0, 'zero': 0.0, 'half': 0.5}[c] if not wr else {'one': 1.0, 'zero': 0.0, 'half': 3.0}[c]
+                if rep == 0:
+                    fr = {k: (1.0 if i % 2 == 0 else 0.0) for i, k in enumerate(universe)}
+                seed = rng.choice([0, 1, 5, 77, None])
+                lam = max([0.0] + list(fr.values())) if wr else 0.0
+                both(rng, out, 1, data, lay, seed, (wr, fr), list(fr.values()), lam, scr=(not quick or rng.random() < 0.5))
+                if rep == 0:
+                    both(rng, out, 4, data, lay, seed, (wr, True, fr, rng.randint(0, 30)), list(fr.values()), lam, scr=False)
     # ---- sample
     fr_no = [0.0, 5e-324, 0.01, 0.3, 0.5, 0.99, ONE_MINUS, 1.0, 1.5, -0.5]
     fr_re = [0.0, 0.5, 1.0, 3.0, 0.01, 7.5, -1.0, -0.0]
